@@ -11,5 +11,7 @@ CONSTANTS
   D15_BreakBypassesHold = TRUE
   M_BusyIgnoresSelector = TRUE
   M_PropagateResetsBusyFirst = FALSE
+  M_FlushCopiesBuffer = TRUE
+  M_StartCheckIsTheTemplates = TRUE
 INVARIANTS TypeOK StatementOK
 CHECK_DEADLOCK FALSE
